@@ -6,6 +6,7 @@ package chain
 
 import (
 	"fmt"
+	"strings"
 	"sync"
 	"time"
 
@@ -89,6 +90,31 @@ func RunConcChains(c *h.Ctx, cc ConcChains, owner string) {
 	}
 	var mu sync.Mutex
 	bad, sig := "", ""
+	// first touch: every chain is met by all goroutines at the same moment while its token objects are fresh (whatever a
+	// token computes lazily on first use is computed under contention)
+	for idx := range ls {
+		l := ls[idx]
+		start := make(chan struct{})
+		var wg sync.WaitGroup
+		for g := 0; g < cc.Goroutines; g++ {
+			wg.Add(1)
+			go func(g int) {
+				defer wg.Done()
+				<-start
+				d := Decide(l.b, nil)
+				if who, what := Owner(l.r, d.Allowed); who == owner {
+					mu.Lock()
+					if bad == "" {
+						sig = what
+						bad = fmt.Sprintf("goroutine %d, first touch: invocation %d checked by %d goroutines at the same moment: allowed=%v (%s), rules broken: %v\ncase: %s", g, idx, cc.Goroutines, d.Allowed, d.Err, l.r.Broken(), mustJSON(l.cs))
+					}
+					mu.Unlock()
+				}
+			}(g)
+		}
+		close(start)
+		wg.Wait()
+	}
 	pv := h.Concurrently(cc.Goroutines, func(g int) {
 		for rd := 0; rd < cc.Rounds; rd++ {
 			l := ls[(g+rd)%len(ls)]
@@ -138,6 +164,17 @@ func DrawConcChains(t *rapid.T) ConcChains {
 				cs.Links[li].Pol = append(append(append(pol.Policy{}, p[:at]...), s), p[at:]...)
 				cs.Dev = append(cs.Dev, fmt.Sprintf("false-stmt@%d/%d", li, len(cs.Links)))
 			}
+		}
+		if len(cs.Dev) == 0 && len(cs.Links) > 0 && rapid.IntRange(0, 2).Draw(t, "widen") == 0 {
+			// or by a link that widens the command (an unrelated, long command), on delegations that stay in memory as
+			// built: several goroutines meet the fresh objects at the same moment
+			li := rapid.IntRange(0, len(cs.Links)-1).Draw(t, "wlink")
+			cs.Links[li].Cmd = "/unrelated/" + strings.Repeat("x", rapid.SampledFrom([]int{1, 100, 5000, 200000}).Draw(t, "wlen"))
+			for i := range cs.Links {
+				cs.Links[i].Decoded = false
+			}
+			cs.ReaderLoader = false
+			cs.Dev = append(cs.Dev, fmt.Sprintf("widen-cmd@%d/%d", li, len(cs.Links)))
 		}
 		cc.Cases = append(cc.Cases, cs)
 	}
